@@ -5,12 +5,12 @@ shape and order of the exported buffer (C09).
 import Strengths.Proofs.SamplerCover
 
 namespace Strengths
-namespace Sim
+namespace SimSt
 variable {σ ω : Type} (A : Algo σ ω) (cfg : SamplerCfg)
 
 /-! ### completion is absorbing -/
 
-theorem iter_of_complete (s : Sim σ ω) (h : s.complete = true) (n : Nat) :
+theorem iter_of_complete (s : SimSt σ ω) (h : s.complete = true) (n : Nat) :
     (iter A cfg n s).complete = true ∧ (iter A cfg n s).t = s.t ∧ (iter A cfg n s).x = s.x ∧
     (iter A cfg n s).recs = s.recs ∧ (iter A cfg n s).samplePos = s.samplePos ∧ (iter A cfg n s).lastTsi = s.lastTsi := by
   induction n with
@@ -23,18 +23,18 @@ theorem iter_of_complete (s : Sim σ ω) (h : s.complete = true) (n : Nat) :
     exact ⟨hc, ht, hx, hr, hp, hl⟩
 
 /-- equal up to the per-iteration flag -/
-def Same (s s' : Sim σ ω) : Prop :=
+def Same (s s' : SimSt σ ω) : Prop :=
   s.x = s'.x ∧ s.t = s'.t ∧ s.samplePos = s'.samplePos ∧ s.lastTsi = s'.lastTsi ∧ s.complete = s'.complete ∧ s.recs = s'.recs
 
-theorem Same.refl (s : Sim σ ω) : Same s s := ⟨rfl, rfl, rfl, rfl, rfl, rfl⟩
+theorem Same.refl (s : SimSt σ ω) : Same s s := ⟨rfl, rfl, rfl, rfl, rfl, rfl⟩
 
-theorem iterate_congr (s s' : Sim σ ω) (h : Same s s') : iterate A cfg s = iterate A cfg s' := by
+theorem iterate_congr (s s' : SimSt σ ω) (h : Same s s') : iterate A cfg s = iterate A cfg s' := by
   obtain ⟨h1, h2, h3, h4, h5, h6⟩ := h
-  have : ({ s with done := false } : Sim σ ω) = { s' with done := false } := by
+  have : ({ s with done := false } : SimSt σ ω) = { s' with done := false } := by
     cases s; cases s'; simp_all
   rw [← iterate_done_irrelevant A cfg s false, ← iterate_done_irrelevant A cfg s' false, this]
 
-theorem next_same_of_complete (s : Sim σ ω) (h : s.complete = true) : Same (next A cfg s) s := by
+theorem next_same_of_complete (s : SimSt σ ω) (h : s.complete = true) : Same (next A cfg s) s := by
   unfold next; rw [iterate_of_complete A cfg s h]; exact ⟨rfl, rfl, rfl, rfl, rfl, rfl⟩
 
 /-! ### fixed-step clock -/
@@ -129,7 +129,7 @@ theorem fixed_iterate_returns {dt : Rat} (hfs : FixedStep A dt) (hdt : 0 < dt) (
     omega
 
 /-- records after a real step: the new (time, state) iff the sampling step fires -/
-theorem next_recs_of_step (s : Sim σ ω) (hc : s.complete = false) {x' : σ} {dt : Rat} (hs : A.step s.x = some (x', dt)) :
+theorem next_recs_of_step (s : SimSt σ ω) (hc : s.complete = false) {x' : σ} {dt : Rat} (hs : A.step s.x = some (x', dt)) :
     (next A cfg s).recs = if fires cfg (advanced s x' dt) then s.recs ++ [(s.t + dt, A.obs x')] else s.recs := by
   unfold next
   rw [iterate_of_step A cfg s hc hs, checkTMax_recs, samplingStep_recs]
@@ -138,24 +138,24 @@ theorem next_recs_of_step (s : Sim σ ω) (hc : s.complete = false) {x' : σ} {d
   · rw [if_neg hf, if_neg hf]; rfl
 
 /-- states reachable by `Init`, `Iterate()` and explicit `Sample()` calls in any order -/
-inductive Reach (x0 : σ) : Sim σ ω → Prop where
+inductive Reach (x0 : σ) : SimSt σ ω → Prop where
   | init : Reach x0 (init A cfg x0)
-  | next (s : Sim σ ω) : Reach x0 s → Reach x0 (next A cfg s)
-  | sample (s : Sim σ ω) : Reach x0 s → Reach x0 (s.sample A)
+  | next (s : SimSt σ ω) : Reach x0 s → Reach x0 (next A cfg s)
+  | sample (s : SimSt σ ω) : Reach x0 s → Reach x0 (s.sample A)
 
-theorem reach_monoInv (hA : NonnegDt A) (x0 : σ) (s : Sim σ ω) (h : Reach A cfg x0 s) : MonoInv s := by
+theorem reach_monoInv (hA : NonnegDt A) (x0 : σ) (s : SimSt σ ω) (h : Reach A cfg x0 s) : MonoInv s := by
   induction h with
   | init => exact (init_strictInv A cfg x0).mono
   | next s _ ih => exact next_monoInv A cfg hA s ih
   | sample s _ ih => exact sample_monoInv A s ih
 
-theorem reach_zeroInv (hA : PosDt A) (x0 : σ) (s : Sim σ ω) (h : Reach A cfg x0 s) : ZeroInv A x0 s := by
+theorem reach_zeroInv (hA : PosDt A) (x0 : σ) (s : SimSt σ ω) (h : Reach A cfg x0 s) : ZeroInv A x0 s := by
   induction h with
   | init => exact init_zeroInv A cfg x0
   | next s _ ih => exact next_zeroInv A cfg hA x0 s ih
   | sample s _ ih => exact sample_zeroInv A x0 s ih
 
-end Sim
+end SimSt
 
 /-! ### the exported buffer -/
 
